@@ -20,6 +20,7 @@ __all__ = [
 ]
 VPK_SIG: Final = 0x55aa1234  #: The first byte of VPK files.
 DIR_ARCH_INDEX: Final = 0x7fff  #: The file index used for the ``_dir`` file.
+MAX_DIR_DATA: Final = 0xffff  #: The maximum amount of a file's data which can be put in the directory tree.
 FileName: TypeAlias = Union[str, tuple[str, str], tuple[str, str, str]]
 
 
@@ -225,18 +226,18 @@ class FileInfo:
         # noinspection PyProtectedMember
         prefix = self.vpk._dir_prefix
 
+        dir_limit = self.vpk.dir_limit
         if prefix is None:
-            self.start_data = data
-            self.arch_len = 0
-            return
+            # Singular VPKs keep everything in the one file - what doesn't fit in
+            # the tree is placed after it.
+            dir_limit = arch_index = None
 
-        if self.vpk.dir_limit is None:
-            # No limit, everything goes into the directory.
-            self.start_data = data
-            arch_data = b''
-        else:
-            self.start_data = data[:self.vpk.dir_limit]
-            arch_data = data[self.vpk.dir_limit:]
+        # The length of the data in the directory tree is a 16-bit value.
+        if dir_limit is None or dir_limit > MAX_DIR_DATA:
+            dir_limit = MAX_DIR_DATA
+
+        self.start_data = data[:dir_limit]
+        arch_data = data[dir_limit:]
 
         self.arch_len = len(arch_data)
 
